@@ -1,5 +1,6 @@
 from __future__ import annotations
 
+import struct
 from typing import Any
 
 from .parseable_str import (
@@ -25,9 +26,16 @@ def hparse(api: ParseAPI, pub_prv: str, key_type: str, s: str) -> Any:
     prefix = getattr(api, attr_name, None)
     if data is None or prefix is None or not data.startswith(prefix):
         return None
+    if len(data) != 78:
+        # 4-byte version, depth, fingerprint, child index, chain code, 33 bytes of key material
+        return None
     parse_method_name = "%s_deserialize" % key_type
     parse_method = getattr(api._network.keys, parse_method_name, lambda *args: None)
-    return parse_method(data)
+    try:
+        return parse_method(data)
+    except (ValueError, struct.error):
+        # key material that is not a valid secret exponent / public key
+        return None
 
 
 class ParseAPI(object):
